@@ -235,11 +235,13 @@ def settle_bounds(chk, prog, roots, exempt=("filippo.io/edwards25519.checkInitia
     ob = chk.obs[-1]
     if ob.ok():
         return
-    sizes = sorted({n for c in (consts or [8, 16, 32, 64]) for n in (c - 1, c, c + 1, c + 6, 2 * c + 1) if 0 <= n <= 200})
+    sizes = sorted({n for c in (consts or [8, 16, 32, 64]) for n in (c - 1, c, c + 1, c + 3, c + 6, 2 * c + 1) if 0 <= n <= 600})[:14]
     chk.extra["large_term_counts_replayed"] = sizes
     try:
         hit = ptreplay.battery_multiscalar_sizes(chk.seed, sizes)
     except Exception as e:
+        import traceback
+        traceback.print_exc()
         chk.note_inconclusive("large-n battery failed: %r" % (e,))
         return
     if hit:
